@@ -259,17 +259,17 @@ Theorem c05_dehb_mutation_reads_trials :
 Proof. exact dehb_mutation_reads_trials. Qed.
 Print Assumptions c05_dehb_mutation_reads_trials.
 
-(* ... and REFUTED for the code as it is without that condition (findings F-C13-3 / F-C05-3): failed
-   jobs sit in their rung as (None, NaN), get_top_list tops the list up with them when too few valid
-   results exist, and _de_mutation reads _trial_info[None] -> KeyError, suggest() does not answer. *)
-Theorem c05_dehb_mutation_reads_none_refuted :
-  exists first md nb ops st bid b sl lv gp rt pos,
-    drun_from first md nb ops = Ok st /\ (0 < bid)%nat /\
-    nth_error (m_brackets (d_mgr st)) bid = Some b /\ current_rung_and_level b = Ok (sl, lv) /\
-    (0 < current_rung b)%nat /\ (pos < length sl)%nat /\
-    read_trial_info (mutation_parent (d_mgr st) bid false lv (length sl) gp rt pos) = Error EKeyNone.
-Proof. exact dehb_mutation_reads_none_refuted. Qed.
-Print Assumptions c05_dehb_mutation_reads_none_refuted.
+(* ... and without any condition since the fix of F-C13-3 / F-C05-3 (a failed job's slot in the top list
+   is replaced by a random existing trial): the lookup above the base rung is total. *)
+Theorem c05_dehb_mutation_reads_trials_total :
+  forall first md nb ops m0 st bid b sl lv gp rt,
+  dehb_mgr_init first md nb = Ok m0 -> drun_from first md nb ops = Ok st ->
+  nth_error (m_brackets (d_mgr st)) bid = Some b -> current_rung_and_level b = Ok (sl, lv) ->
+  (0 < current_rung b)%nat ->
+  forall pos, (pos < length sl)%nat ->
+    exists t, read_trial_info (mutation_parent (d_mgr st) bid false lv (length sl) gp rt pos) = Ok t.
+Proof. exact dehb_mutation_reads_trials_total. Qed.
+Print Assumptions c05_dehb_mutation_reads_trials_total.
 
 (* regression example of former finding F-C05-2: the parent slot of a higher rung is found when
    there are fewer brackets per iteration than rung levels (an example, not a general theorem) *)
